@@ -280,6 +280,24 @@ def collect(ls, curkey, content):
     return collect(ls[1:], curkey, content)
 
 
+def collect_w(ls, curkey, content, wanted):
+    """the same with a `fields` filter: an unwanted field line still ends the pending field but starts none"""
+    if len(ls) == 0:
+        return flush(curkey, content)
+    line = decoded(ls[0])
+    if single_m(line):
+        if single_key(line) in wanted:
+            return flush(curkey, content) + collect_w(ls[1:], single_key(line), single_data(line), wanted)
+        return flush(curkey, content) + collect_w(ls[1:], None, content, wanted)
+    if multi_m(line):
+        if multi_key(line) in wanted:
+            return flush(curkey, content) + collect_w(ls[1:], multi_key(line), "", wanted)
+        return flush(curkey, content) + collect_w(ls[1:], None, content, wanted)
+    if multidata_m(line):
+        return collect_w(ls[1:], curkey, content + "\n" + line, wanted)
+    return collect_w(ls[1:], curkey, content, wanted)
+
+
 def payload(seq):
     return []       # opaque: what gpg_stripped_paragraph(_skip_useless_lines(seq)) returns
 
@@ -397,6 +415,21 @@ def verify_skip_useless(ctx):
     ctx.solve()
 
 
+class InternalParserFields(InternalParser):
+    """with fields=[...]: only the wanted fields are assigned"""
+    ensures = ("self.assigned == old(self.assigned) + collect_w(payload(useful(sequence)), None, '', fields)",)
+    loops = {0: LoopSpec(invariants=("0 <= li and li <= len(payload(useful(sequence)))",
+                                     "self.assigned + collect_w(payload(useful(sequence))[li:], curkey, content, fields) == "
+                                     "old(self.assigned) + collect_w(payload(useful(sequence)), None, '', fields)"),
+                         index="li", modifies=("self.assigned",),
+                         var_types={"linebytes": "bytes", "line": "str", "m": "objnone", "curkey": ("opt", "str"), "content": "str"})}
+
+    def setup(self, ex):
+        d = InternalParser.setup(self, ex)
+        d["fields"] = fresh(("list", "str"), "fields")
+        return d
+
+
 def verify_internal_parser(ctx, real):
     D = real.Deb822
     sl = SpecLib()
@@ -420,9 +453,10 @@ def verify_internal_parser(ctx, real):
     w.spec_func(decoded, rec=dict(args=["bytes"], ret="str", opaque=True))
     w.spec_func(flush)
     w.spec_func(collect, rec=dict(args=["list:bytes", "opt:str", "str"], ret=("list", PAIR)))
+    w.spec_func(collect_w, rec=dict(args=["list:bytes", "opt:str", "str", "list:str"], ret=("list", PAIR)))
     for c in (SkipUselessAbs(), GpgStrippedAbs(), DecodeAbs(), SetItemAbs()):
         w.add_contract(c)
-    verify_contracts(ctx, w, [InternalParser()], {})
+    verify_contracts(ctx, w, [InternalParser(), InternalParserFields()], {})
     ctx.solve()
 
 
